@@ -151,6 +151,7 @@ prop("C05", "c05",
      "assertions, header, mutation kinds).",
      [dict(run="^TestOnlyValidTokensYieldSubjects$", quick=2000, thorough=120000, shards_thorough=12),
       dict(run="^TestRequiredScopesAreMatched$", quick=1500, thorough=80000, shards_thorough=4),
+      dict(run="^TestKeysComeFromTheEndpointOfTheTokensIssuer$", quick=600, thorough=20000, shards_thorough=4),
       dict(run="^FuzzTokenBytes$", fuzz=True, quick=1, thorough=1, shards_thorough=1, fuzztime_thorough=240, fuzz_workers=6)],
      ["tokens without exp have no upper validity bound (accepted by the reference)", "certificate validation of JWKs is not part of the statement (C10 covers certificate expiry for caching)"],
      level="Randomised generated search over tokens x key sets x assertion configurations on the assembled decision service "
